@@ -280,6 +280,8 @@ class World(object):
             return
         self.net.fault("add_partitions")
         nodes = sorted(b.node for b in self.cluster.alive())
+        if not nodes:
+            return
         for _ in range(n):
             pid = max(t.partitions) + 1
             t.partitions[pid] = Partition(topic, pid, nodes[pid % len(nodes)], nodes[:1])
@@ -329,7 +331,9 @@ class World(object):
             res.oblige(prop)
             k = (e["cid"], e["corr"])
             if k in seen:
-                res.violate(prop, "C04:correlation-id-reused-on-connection", "conn %d id %d" % k)
+                # (reuse of an id on one connection is not forbidden by the statement - fetch_api_versions() does it
+                # when it retries - so this is recorded, not judged)
+                res.probe("note_correlation_id_reused_on_connection")
             seen[k] = True
             client = self.clients.get(e["pid"])
             if client is not None and "client_id" in e:
